@@ -19,11 +19,11 @@ CHECKS = {
          "Exploration: ~1.5k (quick) / ~57k (thorough) chains of 1-4 stages on hard and LJ states of all groups (4M+ evaluated states range-checked in quick), with bounds re-derived from each stage's own start, labels and degrees of freedom per family, finite defined score of the re-read result, no panic; and from_group validity for every group x {polygon 3..64, circle, trimers} x potential.",
          "Ranges are those stated by the property, not read from the code; results are read back through serde JSON as a user would.",
          "DESIGN.md 5 C08"),
- "C20": ("trace monitor call counting + bit-exact prefix comparison of convergent vs full runs + loop-boundary convergence rule; process-boundary classifier on the real CLI incl. syscall fault injection (strace) on the output files",
+ "C20": ("trace monitor call counting + bit-exact prefix comparison of convergent vs full runs + loop-boundary convergence rule; process-boundary classifier on the real CLI incl. syscall fault injection (strace) on the output files and output paths that are not UTF-8",
          "Exploration: ~3k (quick) / ~96k (thorough) library configurations over steps/inner_steps in {0,1,2,3,7,999,1000,1001,2500,1e5} x temperatures x schedules x thresholds (no panic, work within [steps - one loop, steps], convergent run an exact prefix, exit at exactly the loop the rule dictates) and ~120 (quick) / ~2500 (thorough) runs of the real binary (incl. debug logging on, 'run until converged' step counts, unwritable paths) classified by exit status, stderr and output files; plus fault enumeration: each of the six system calls on the two output files made to fail in turn with ENOSPC/EIO/EACCES/EINTR (72 fault points). Library cases that can abort the process (allocation failure) run in a child process.",
          "The convergence rule is decided only when the loop-boundary scores are unambiguous from the trace (counted in the evidence).",
          "DESIGN.md 5 C20"),
- "C05": ("trace monitor (candidate-set automaton over State::score() calls) on scripted and Spy-wrapped real states across the optimiser configuration space at kt_start = 0",
+ "C05": ("trace monitor (candidate-set automaton over State::score() calls) on scripted and Spy-wrapped real states across the optimiser configuration space at kt_start = 0 (cooling ratios inside and outside [0,1]), plus lean quenches of more than 2^31 / 2^32 loops",
          "Exploration: ~4k (quick) / ~200k (thorough) runs, tens of millions of observed steps: every accept/reject decision that the parameter vectors resolve is checked (no worse score accepted), and the returned score is compared with the input score, over kt_finish/kt_ratio/steps/inner_steps/convergence/step/seed, through the CLI parser (kt_finish unset) and the builder API.",
          "Decisions are inferred from bit patterns of the parameter vectors at the State boundary; unresolved decisions are never used.",
          "DESIGN.md 3.2, 5 C05"),
@@ -31,11 +31,11 @@ CHECKS = {
          "Exploration: ~5k (quick) / ~240k (thorough) runs with k = 1..24 parameters, scripted reject runs / alternation / undefined scores, bounds hit on every move or never, parameters starting outside their range, all temperatures: each evaluated vector must differ from a possible current state in at most one parameter and the returned state must be a possible current state. Sanitizer leg (Miri on the UnsafeCell undo mechanism) in the thorough tier.",
          "Observation at the State boundary only; single-parameter states cannot resolve decisions (set semantics).",
          "DESIGN.md 3.2, 5 C06"),
- "C07": ("trace monitor for the deterministic clauses + anchor/probe/sentinel acceptance-frequency estimator with Chernoff/KL bounds for exp(-d/kT) + short-run conditional frequencies over many seeds",
+ "C07": ("trace monitor for the deterministic clauses + anchor/probe/sentinel acceptance-frequency estimator with Chernoff/KL bounds for exp(-d/kT) + short-run conditional frequencies over many seeds + far-tail and cooled-to-nothing runs of 1e9-1e11 proposals on a lean state",
          "Exploration / statistical: deterministic clauses on ~20M resolved decisions (quick); acceptance frequencies of 84 (d,kT,k) cells with 2e4 (quick) / 1e6 (thorough) probes each, flagged only when a conservative tail bound is < 1e-12; lag-1 autocorrelation of accept flags; 108k (quick) / 3.6M (thorough) one- and two-step runs with acceptance tallied per moved parameter and previous direction.",
          "A probability is estimated, not proved; deviations below ~3% relative at n = 1e6 are invisible.",
          "DESIGN.md 5 C07"),
- "C18": ("per-loop acceptance-frequency inference of the temperature from scripted probes vs the interval of schedules the property allows",
+ "C18": ("per-loop acceptance-frequency inference of the temperature from scripted probes vs the interval of schedules the property allows, incl. builders with a history and runs asked for 2^31-2^40 loops that leave through the convergence exit",
          "Exploration / statistical: 103 schedule configurations (ratio, finish, both, neither, zero; 1..50 loops and thousands of tiny loops; jammed stretches of fully rejected loops) with 2e4 (quick) / 6e5 (thorough) probes per loop; windows of loops are compared with the probability interval implied by the allowed temperature interval, Chernoff/KL bound < 1e-12 to flag.",
          "Temperature is inferred, resolution ~1.3/sqrt(n) per window; 'neither' pins only the first loop.",
          "DESIGN.md 5 C18"),
@@ -47,15 +47,15 @@ CHECKS = {
          "Exploration: ~0.3M (quick) / ~19M (thorough) LJ states of all groups (circle, trimers) from strongly overlapping to dilute, each compared with an exhaustive per-molecule lattice sum (1e-9 of term magnitudes; 3% of the attractive sum for the uncut circle) and with equivalent descriptions (copy moved across a cell face, origin shifted by normaliser translations). One open known finding (images beyond the third shell inside the cutoff) is reported as KNOWN-FINDING and keyed by an oracle-computed predicate.",
          "The pair kernel is the library's LJ2::energy (decided by C13), cross-checked against the independent law for like particles.",
          "DESIGN.md 5 C03"),
- "C01": ("runtime monitor: library score vs exhaustive lattice-image overlap oracle on uniform, contact-bisected and optimiser-produced states (Spy), state objects edited over histories, and CLI output files",
+ "C01": ("runtime monitor: library score vs exhaustive lattice-image overlap oracle on uniform, contact-bisected and optimiser-produced states (Spy), state objects edited over histories, flat-histogram walks and targeted searches for states whose first contact is a chosen far lattice image, and CLI output files",
          "Exploration: ~6M (quick) / ~200M (thorough) states - uniform, boundary-focused states bisected to first contact and probed just inside it, every stage result and sampled evaluations of real optimiser pipelines observed through a Spy state, and the CLI's JSON files - are re-examined by an oracle that enumerates every lattice image that can be within reach (from cell heights) and measures penetration by separating axes / disc distance; witnesses are re-confirmed by polygon clipping. Held on the states produced; the thin failing region is sampled, not covered.",
          "Placements are read from cartesian_positions() (their correctness is C04/C14/C15). Convex polygons and unions of discs only.",
          "DESIGN.md 5 C01"),
- "C02": ("differential runtime monitor: Shape::area / Cell2::area / State::score vs shoelace, exact union-of-discs (Green's theorem, grid self-tested) and |A x B| on oracle-valid packings, incl. state objects edited over histories (shape replaced, clone, JSON) and ranking through the states' own Ord",
+ "C02": ("differential runtime monitor: Shape::area / Cell2::area / State::score vs shoelace, exact union-of-discs (Green's theorem, grid self-tested) and |A x B| on oracle-valid packings, incl. state objects edited over histories (shape replaced, clone, JSON) multi-site states of mixed multiplicity, and ranking through the states' own Ord",
          "Exploration: ~0.25M (quick) / ~25M (thorough) shapes and ~0.1M / ~4M oracle-valid states (as generated and shrunk to first contact); score must equal copies x true area / cell area to 1e-9 and stay <= 1. One open known finding (three discs sharing a point) is reported as KNOWN-FINDING, any other disagreement is a violation.",
          "The union-area oracle is checked against a 1200x1200 grid count at start-up (a disagreement makes the run inconclusive).",
          "DESIGN.md 5 C02"),
- "C04": ("runtime monitor: placed point sets of hard and LJ states, incl. after chained optimisation via clone() and along histories of edits of one state object, mapped by every ITA operation in Cartesian form",
+ "C04": ("runtime monitor: placed point sets of hard and LJ states, incl. after chained optimisation via clone() along histories of edits of one state object, and for states read from JSON with any lattice of the family, mapped by every ITA operation in Cartesian form",
          "Exploration: ~0.3M (quick) / ~25M (thorough) states with chiral test shapes (handedness-sensitive) and the CLI's shapes, plus thousands of states after 1-3 chained optimisation stages read back through JSON; every operation must be orthogonal for the current cell and map the set of placed shapes onto itself modulo the lattice.",
          "Trusts the ITA table (C16) and the lattice model; placements are taken from cartesian_positions().",
          "DESIGN.md 5 C04"),
